@@ -80,6 +80,17 @@ static void run_script(const std::vector<std::string>& lines) {
                 printf("R probe create=%d assign=%d\n", d1 ? 1 : 0, d2 ? 1 : 0);
                 em.destroyNow(e); em.destroyNow(f);
             } else printf("R\n");
+        } else if (op == "destroypair") {
+            // destroypair <k> <h> <g> <order>: world k is asked (unlocked) to destroy its own entity #h and, before or after it, handle #g of
+            // another world; at the next update the own entity dies, the foreign request means nothing
+            size_t k, h, g; int order; in >> k >> h >> g >> order;
+            if (k < worlds.size() && worlds[k] && h < handles.size() && g < handles.size() && handles[h].world == k && handles[g].world != k
+                && worlds[k]->entities().isEntityValid(handles[h].e)) {
+                auto& em = worlds[k]->entities();
+                if (order == 0) { em.destroy(handles[g].e); em.destroy(handles[h].e); } else { em.destroy(handles[h].e); em.destroy(handles[g].e); }
+                worlds[k]->update();
+                printf("R destroypair alive=%d\n", em.isEntityValid(handles[h].e) ? 1 : 0);
+            } else printf("R\n");
         } else if (op == "lockedforeign") {
             // lockedforeign <k> <h> <g> <order>: in one locked section of world k, a command through world k's own handle #h and a
             // command through handle #g of ANOTHER world (often the same slot id), recorded next to each other. The foreign command
